@@ -277,50 +277,77 @@ Lemma ex_inverse_ok : exists B, inverse 2 2 ex_swap = Ok B.
 Proof. destruct ex_plu_ok as [L [U [P E]]]. exact (inverse_ok_of_plu 2 ex_swap L U P E). Qed.
 
 (* ---------------------------------------------------------------------------
-   Why c10_involutive is only partial: the 1x1 matrix [2^60] is inverted to [2^-60],
-   which the absolute pivot test |pivot| < EPSILON = 2^-52 then refuses.
+   Why c10_involutive is only partial (code after d0c7441, threshold EPSILON * n * max|a_ij|):
+   A = [[0,1],[1,2^30]] is inverted (pivots 1, 1 against a threshold 2^-21), its inverse
+   B = [[-2^30,1],[1,0]] has the pivots 2^30 and 2^-30, and 2^-30 <= 2^-21 is refused.
    --------------------------------------------------------------------------- *)
-Definition ex_big : mat R := mconst (2 ^ 60).
+Definition ex_ill : mat R := mat_of_lists [[0; 1]; [1; 2 ^ 30]].
 
-Lemma ex_big_plu_ok : exists L U P, plu 1 1 ex_big = Ok (L, U, P).
-Proof.
-  unfold plu. cbn [Nat.eqb negb for_range].
-  rewrite (plu_step_eval 1 0 ex_big midentity 0).
-  - eexists _, _, _. reflexivity.
-  - reflexivity.
-  - rewrite tau_i. unfold ex_big, mconst.
-    rewrite Rabs_right by (apply Rle_ge; apply pow_le; lra).
-    apply Rle_trans with 1; [apply neps_le_1|apply pow_R1_Rle; lra].
-Qed.
+Lemma pow30_ge_1 : 1 <= 2 ^ 30.
+Proof. apply pow_R1_Rle. lra. Qed.
 
 Lemma c10_involutive_counterexample :
-  exists A B : mat R, inverse 1 1 A = Ok B /\ inverse 1 1 B = Err ESingularMatrix.
+  exists A B : mat R, inverse 2 2 A = Ok B /\ inverse 2 2 B = Err ESingularMatrix.
 Proof.
-  destruct ex_big_plu_ok as [L [U [P E]]].
-  destruct (inverse_ok_of_plu 1 ex_big L U P E) as [B HB].
-  exists ex_big, B. split; [exact HB|].
-  assert (HB00 : B 0%nat 0%nat * 2 ^ 60 = 1).
-  { pose proof (inverse_left 1 ex_big B HB 0%nat 0%nat ltac:(lia) ltac:(lia)) as H.
-    unfold mprod, delta in H. cbn [msum Nat.add Nat.eqb] in H. unfold ex_big, mconst in H. lra. }
-  destruct (inverse_outcome 1 B) as [H|[A' H]]; [exact H|exfalso].
-  destruct (inverse_ok_spec 1 B A' H) as [L' [U' [P' [s [Hplu _]]]]].
-  destruct (c09_plu_pivots 1 B L' U' P' Hplu 0%nat ltac:(lia)) as [Hpiv _].
-  destruct (c09_plu_shape 1 B L' U' P' Hplu) as [HL' _].
-  destruct (plu_reconstruct_perm 1 B L' U' P' Hplu) as [s2 [[s2' Hs2] [_ Hrec]]].
-  pose proof (Hrec 0%nat 0%nat ltac:(lia) ltac:(lia)) as H00.
-  assert (Hs0 : s2 0%nat = 0%nat) by (destruct (Hs2 0%nat ltac:(lia)) as [Hlt _]; lia).
-  rewrite Hs0 in H00. unfold mprod in H00. cbn [msum Nat.add] in H00.
-  destruct (HL' 0%nat 0%nat ltac:(lia) ltac:(lia)) as [HL1 _]. rewrite HL1 in H00 by reflexivity.
-  assert (HU : U' 0%nat 0%nat = B 0%nat 0%nat) by lra.
-  rewrite HU in Hpiv. rewrite neps_R in Hpiv.
-  assert (HBv : B 0%nat 0%nat = / 2 ^ 60).
-  { apply Rmult_eq_reg_r with (2 ^ 60); [|apply pow_nonzero; lra].
-    rewrite HB00. rewrite Rinv_l; [reflexivity|apply pow_nonzero; lra]. }
-  rewrite HBv in Hpiv.
-  rewrite Rabs_right in Hpiv by (apply Rle_ge; left; apply Rinv_0_lt_compat; apply pow_lt; lra).
-  assert (Hlt : / 2 ^ 60 < / 2 ^ 52).
-  { apply Rinv_lt_contravar.
-    - apply Rmult_lt_0_compat; apply pow_lt; lra.
-    - apply Rlt_pow; [lra|lia]. }
-  lra.
+  pose proof pow30_ge_1 as HM. set (M := 2 ^ 30) in *.
+  assert (A00 : ex_ill 0%nat 0%nat = 0) by reflexivity.
+  assert (A01 : ex_ill 0%nat 1%nat = 1) by reflexivity.
+  assert (A10 : ex_ill 1%nat 0%nat = 1) by reflexivity.
+  assert (A11 : ex_ill 1%nat 1%nat = M) by reflexivity.
+  destruct (plu_2x2_swap_ok ex_ill A00 A01 A10) as [L [U [P E]]].
+  { rewrite plu_threshold_R. apply small_threshold; [apply plu_scale_nonneg|].
+    apply plu_scale_le; [fold M; lra|]. intros i j Hi Hj. fold M.
+    destruct i as [|[|i]]; destruct j as [|[|j]]; try lia;
+      rewrite ?A00, ?A01, ?A10, ?A11, ?Rabs_R0, ?Rabs_R1; try lra.
+    rewrite Rabs_right by lra. lra. }
+  destruct (inverse_ok_of_plu 2 ex_ill L U P E) as [B HB].
+  exists ex_ill, B. split; [exact HB|].
+  (* the entries of B, from B A = I *)
+  assert (HBA : forall r c, (r < 2)%nat -> (c < 2)%nat ->
+            B r 0%nat * ex_ill 0%nat c + B r 1%nat * ex_ill 1%nat c = delta r c).
+  { intros r c Hr Hc. rewrite <- (inverse_left 2 ex_ill B HB r c Hr Hc).
+    unfold mprod. cbn [msum Nat.add]. ring. }
+  pose proof (HBA 0%nat 0%nat ltac:(lia) ltac:(lia)) as H00.
+  pose proof (HBA 0%nat 1%nat ltac:(lia) ltac:(lia)) as H01.
+  pose proof (HBA 1%nat 0%nat ltac:(lia) ltac:(lia)) as H10.
+  pose proof (HBA 1%nat 1%nat ltac:(lia) ltac:(lia)) as H11.
+  rewrite A00, A10 in H00, H10. rewrite A01, A11 in H01, H11.
+  unfold delta in *. cbn [Nat.eqb] in *.
+  assert (B01 : B 0%nat 1%nat = 1) by lra.
+  assert (B11 : B 1%nat 1%nat = 0) by lra.
+  assert (B00 : B 0%nat 0%nat = - M) by (rewrite B01 in H01; lra).
+  assert (B10 : B 1%nat 0%nat = 1) by (rewrite B11 in H11; lra).
+  (* the threshold of B *)
+  assert (HsB : plu_scale 2 B = M).
+  { apply Rle_antisym.
+    - apply plu_scale_le; [lra|]. intros i j Hi Hj.
+      destruct i as [|[|i]]; destruct j as [|[|j]]; try lia;
+        rewrite ?B00, ?B01, ?B10, ?B11, ?Rabs_Ropp, ?Rabs_R0, ?Rabs_R1; try lra.
+      rewrite Rabs_right by lra. lra.
+    - rewrite <- (Rabs_right M) by lra. rewrite <- (Rabs_Ropp M), <- B00. apply plu_scale_ge; lia. }
+  assert (HtB : plu_threshold 2 B = neps * INR 2 * M) by (rewrite plu_threshold_R, HsB; reflexivity).
+  assert (Hlt1 : plu_threshold 2 B < 1) by (rewrite HtB; apply small_threshold; [lra|unfold M; lra]).
+  assert (Hge : / M <= plu_threshold 2 B).
+  { rewrite HtB, neps_R. cbn [INR]. unfold M.
+    replace (2 ^ 52) with (2 ^ 30 * 2 ^ 22) by (rewrite <- pow_add; reflexivity).
+    assert (H30 : 0 < 2 ^ 30) by (apply pow_lt; lra).
+    assert (H22 : 0 < 2 ^ 22) by (apply pow_lt; lra).
+    rewrite Rinv_mult.
+    replace (/ 2 ^ 30 * / 2 ^ 22 * (1 + 1) * 2 ^ 30) with ((2 ^ 30 * / 2 ^ 30) * (2 * / 2 ^ 22)) by ring.
+    rewrite Rinv_r by lra. rewrite Rmult_1_l.
+    assert (Hinv : / 2 ^ 30 <= / 2 ^ 22) by (apply Rinv_le_contravar; [lra|apply Rle_pow; [lra|lia]]).
+    assert (0 < / 2 ^ 22) by (apply Rinv_0_lt_compat; lra). lra. }
+  rewrite inverse_square. unfold plu. cbn [Nat.eqb negb for_range].
+  rewrite (plu_step_eval 2 _ 0 B midentity 0).
+  - cbn [Nat.eqb].
+    rewrite (plu_step_refuse 2 _ 1 (retab 2 2 (plu_eliminate 2 0 B)) _ 1).
+    + reflexivity.
+    + reflexivity.
+    + rewrite tau_i, elim_2x2. rewrite B00, B01, B10, B11.
+      replace (0 - 1 / - M * 1) with (/ M) by (field; lra).
+      rewrite Rabs_right by (apply Rle_ge; left; apply Rinv_0_lt_compat; lra). exact Hge.
+  - unfold plu_pivot_search. cbn [Nat.sub for_range snd]. rewrite B00, B10.
+    unfold ngtb. cbn [nltb nabs RNum]. rewrite Rabs_Ropp, Rabs_R1, (Rabs_right M) by lra.
+    replace (Rltb M 1) with false by (symmetry; apply Rltb_false; lra). reflexivity.
+  - rewrite tau_i, B00, Rabs_Ropp, Rabs_right by lra. lra.
 Qed.
